@@ -305,7 +305,11 @@ def check_state(world: World, model: Model, view, case: dict, step, exact: bool 
                         f"step {step}: token {i} ({_kind(world, i)}: {world.specs[i]}) is reported as part of the "
                         f"tree; reference closure {sorted(model.closure)}, tree {sorted(ids)}", case)
     waiting = {}
-    for tok in view.unchained:
+    # the waiting area is observed through whatever Token objects it holds (as keys or as values): its internal
+    # layout is not part of the property
+    held = [t for t in list(view.unchained) + (list(view.unchained.values()) if hasattr(view.unchained, "values")
+                                               else []) if hasattr(t, "get_plaintext_signed")]
+    for tok in held:
         i = world.by_bytes.get(tok.get_plaintext_signed())
         waiting[i] = tok
     if exact:
